@@ -34,6 +34,10 @@ func runC08(c *Ctx) {
 	c.Rule("R7", "restart invisibility: one recovery level for writers and rebuild; persisted FSM state is the applied one; stop waits for raft", 8)
 	recoveryHeightAgreement(c, "R7")
 	cacheTilesPersistedAlways(c, "R7")
+	hyperOrderingConvention(c, "R5")
+	readerErrOnlyWithEmptyChunk(c, "R5")
+	loadStateInstallsWhatItDecodes(c, "R7")
+	startupJoinOnlyWithoutState(c, "R7")
 	_, applyAdd := fsmApplyGuard(newCtx(c.P, c.Prop, c.Tier), "R7")
 	fsmApplyAdd(c, "R7", applyAdd)
 	nodeCloseWaits(c, "R7")
